@@ -43,6 +43,10 @@ type c03Plan struct {
 	// WriteFault: in block B make the K-th physical write fail (0 = none)
 	FaultBlock int `json:"fault_block,omitempty"`
 	FaultWrite int `json:"fault_write,omitempty"`
+	// ReadFault: while block ReadFaultBlock is being EXECUTED the ReadFaultN-th disk read fails once
+	// (transient I/O error)
+	ReadFaultBlock int `json:"rfault_block,omitempty"`
+	ReadFaultN     int `json:"rfault_n,omitempty"`
 }
 
 type c03 struct{}
@@ -61,11 +65,11 @@ func (c03) Budget(tier string) runner.Budget {
 
 func (c03) Describe() runner.Description {
 	return runner.Description{
-		Rule:        "each history is 1..6 seeded blocks of balance/nonce/storage/code mutations (code blobs up to 120 KB; code set and set again inside a reverted snapshot; slots emptied and rewritten inside a reverted snapshot; one-byte values; storage keys that are prefixes of one another; 24..140 slots of one account written at once, so that branch nodes with all sixteen children occur) (about half of the blocks write >100 KiB so that the commit is split over several batch writes; some write nothing new) committed as blockChain.saveStates does. evaluations = crash images: for every block and EVERY prefix k=0..N of its physical writes, the disk image (everything durable before + first k writes) is opened with a brand-new database and walked completely (account trie, every storage trie, every code blob): all earlier roots must resolve and read back every recorded value; the block's own root must do so whenever its top node is on disk, and always for k=N. A write-error variant makes one physical write fail: Commit must report it and earlier roots stay intact; the same root is then committed again by the surviving process, and if that reports success the root must resolve from disk alone. exhaustive=true refers to the write prefixes of each generated history (the histories themselves are sampled). distinct_nontrivial = distinct (history, block, k) with 0<k<N, i.e. crash points strictly inside a multi-batch commit.",
+		Rule:        "each history is 1..6 seeded blocks of balance/nonce/storage/code mutations (code blobs up to 120 KB; code set and set again inside a reverted snapshot; slots emptied and rewritten inside a reverted snapshot; one-byte values; storage keys that are prefixes of one another; 24..140 slots of one account written at once, so that branch nodes with all sixteen children occur) (about half of the blocks write >100 KiB so that the commit is split over several batch writes; some write nothing new) committed as blockChain.saveStates does (in half of the histories after an IntermediateRoot, as the block executor leaves the state). evaluations = crash images: for every block and EVERY prefix k=0..N of its physical writes, the disk image (everything durable before + first k writes) is opened with a brand-new database and walked completely (account trie, every storage trie, every code blob): all earlier roots must resolve and read back every recorded value; the block's own root must do so whenever its top node is on disk, and always for k=N. A read-error variant makes one disk read fail while a later block executes: the commit may refuse, but if it reports success the root must be complete on disk. A write-error variant makes one physical write fail: Commit must report it and earlier roots stay intact; the same root is then committed again by the surviving process, and if that reports success the root must resolve from disk alone. exhaustive=true refers to the write prefixes of each generated history (the histories themselves are sampled). distinct_nontrivial = distinct (history, block, k) with 0<k<N, i.e. crash points strictly inside a multi-batch commit.",
 		Assumptions: []string{"crash model = process death: completed physical writes (Put or whole batch) survive, nothing is torn or lost (the code never syncs; the properties speak of process death)", "the reference for every root is what the executing state answered right before its commit (checked against the committed root opened on the live database, and that against every cold image)"},
 		Real:        []string{"storage/account (AccountDB.Commit, account objects)", "storage/trie (NodeDatabase.Commit, commit ordering, batches)", "storage/rlp"},
 		Stub:        []string{"disk: simdisk.KV (write log, crash images, write faults)"},
-		FaultKinds:  []string{"sibling_states_in_memory", "crash_after_write_k", "crash_inside_multibatch_commit", "disk_write_error", "commit_retry_after_write_error"},
+		FaultKinds:  []string{"sibling_states_in_memory", "crash_after_write_k", "crash_inside_multibatch_commit", "disk_write_error", "commit_retry_after_write_error", "disk_read_error_during_execution"},
 		Exhaustive:  true,
 	}
 }
@@ -152,6 +156,9 @@ func (c03) Gen(seed uint64, tier string) json.RawMessage {
 	if r.Chance(0.3) {
 		p.FaultBlock = r.Range(1, nb)
 		p.FaultWrite = r.Range(1, 3)
+	} else if nb >= 2 && r.Chance(0.2) {
+		p.ReadFaultBlock = r.Range(2, nb) // a later block: it reads what earlier blocks stored
+		p.ReadFaultN = r.Range(1, 6)
 	} else if r.Chance(0.5) {
 		p.Alt, p.AltFirst = map[int][]c03Mut{}, map[int]bool{}
 		for b := 0; b < nb; b++ {
@@ -348,8 +355,23 @@ func (c03) Exec(raw json.RawMessage, stt *simrt.Stats, log *simrt.Log) *simrt.Vi
 	parentRoot := root
 	for b, blk := range p.Blocks {
 		stt.Ops++
+		readFaulted := false
+		if p.ReadFaultBlock == b+1 && p.ReadFaultN > 0 {
+			seen := 0
+			kv.ReadFault = func(key []byte) bool {
+				seen++
+				if seen == p.ReadFaultN {
+					readFaulted = true
+					return true
+				}
+				return false
+			}
+		}
 		for i, m := range blk {
 			c03Apply(st, m, p.Seed+uint64(b*100+i))
+		}
+		if readFaulted {
+			stt.Fault("disk_read_error_during_execution")
 		}
 		base := kv.Snapshot()
 		logStart := len(kv.Log)
@@ -371,6 +393,11 @@ func (c03) Exec(raw json.RawMessage, stt *simrt.Stats, log *simrt.Log) *simrt.Vi
 		// what the executing state answers before the commit (the statement's reference); the iteration
 		// count is left out: a data iterator walks committed storage only
 		pre := c03Observe(st)
+		if p.Seed&2 == 0 {
+			// as the block executor does: the root is computed (IntermediateRoot) when execution ends, the
+			// commit follows when the block is saved
+			st.IntermediateRoot(true)
+		}
 		newRoot, err := st.Commit(true)
 		if err == nil && stAlt != nil {
 			altRoot, err = stAlt.Commit(true) // both states sit in the memory layer before either is flushed
@@ -394,6 +421,26 @@ func (c03) Exec(raw json.RawMessage, stt *simrt.Stats, log *simrt.Log) *simrt.Vi
 		}
 		kv.FailWriteAt = 0
 		log.Add("block %d muts=%d writes=%d root=%x err=%v", b, len(blk), len(kv.Log)-logStart, newRoot.Bytes()[:4], err)
+		kv.ReadFault = nil
+		if readFaulted {
+			// the executing state met an I/O error: it may refuse to commit (then the history ends here, older
+			// roots intact); if the commit REPORTS SUCCESS the root must be complete on disk like any other
+			if err == nil {
+				cold := simdisk.Image(kv.Snapshot(), nil, 0)
+				if miss := c03Walk(cold, newRoot); miss != "" {
+					return viol(b, "acknowledged-root-not-durable", "after-read-error-"+c03Where(miss), "block %d met a disk read error while it executed, its commit reported success for root %x, but the root is not resolvable from disk: %s", b, newRoot.Bytes(), miss)
+				}
+				stt.Probe("commit_succeeded_after_read_error")
+			} else {
+				stt.Probe("commit_refused_after_read_error")
+			}
+			for _, d := range roots {
+				if v := checkRoot(b, simdisk.Image(kv.Snapshot(), nil, 0), d, "older-root-broken"); v != nil {
+					return v
+				}
+			}
+			break
+		}
 		if faulted {
 			stt.Fault("disk_write_error")
 			if err == nil {
